@@ -383,6 +383,14 @@ def probe_bad_netlists():
             out.append('accepted')
         except AssertionError:
             out.append('rejected')
+    # a hard module whose rectangles overlap on a thin strip (0.5% of a rectangle): the verdict depends on the area
+    # tolerance in force
+    for strip in (0.01, 0.001):
+        try:
+            Netlist({'Modules': {'H': {'hard': True, 'rectangles': [[1, 1, 2, 2], [3 - strip, 1, 2, 2]]}}, 'Nets': []})
+            out.append('accepted')
+        except AssertionError:
+            out.append('rejected')
     return out
 
 
